@@ -18,9 +18,7 @@ theorem DStop.src (s : Nat) (cl : Client) (rs : DevState) : ∀ a ∈ srcActs s,
   all_goals (simp only [setSrcPc, atWmap, wmapOut, wmapSys, chanOp, Bool.and_eq_true, Bool.or_eq_true, decide_eq_true_eq, Bool.not_eq_true', ne_eq] at hg ⊢)
   case inr.inr.inr.inr.inr.inr.inr.inr.inl =>
     obtain ⟨b, hb⟩ := (isWok_iff _).mp hg.2
-    have hp : (cv st.sinkCh).pending = false := by
-      have := k7; rcases hg.1.1 with e | e <;> simp_all [srcHold]
-    obtain ⟨hok, hcv⟩ := hwo b hp hb
+    obtain ⟨hok, hcv⟩ := hwo b hb
     constructor
     all_goals (try simp only [hcv])
     all_goals (first | assumption | ((try simp only [srcFin, snkErrLate] at *) <;> grind))
@@ -31,7 +29,8 @@ theorem DStop.src (s : Nat) (cl : Client) (rs : DevState) : ∀ a ∈ srcActs s,
     all_goals (try simp only [hs])
     all_goals (first | assumption | ((try simp only [srcFin, snkErrLate] at *) <;> grind))
   case inr.inr.inr.inr.inr.inr.inr.inr.inr.inr.inr.inr.inr.inr.inr.inr.inr.inr.inl =>
-    have hp : (cv st.sinkCh).pending = true := by have := k7; simp_all [srcHold]
+    have hsh : srcHold st.src.pc = true := by (have := hg.1; simp_all [srcHold])
+    have hp : (cv st.sinkCh).pending = true := k7 hsh
     obtain ⟨hok, hcv⟩ := hcm hp
     constructor
     all_goals (try simp only [hcv])
